@@ -307,7 +307,7 @@ CHECKS = {
         technique='scenario-based property testing (rapid) with tagged requests against a scripted reference server; directed yield-point schedules',
         rule=('case = rpc scenario on a resumed session: callers x tagged requests, answer order/grouping/gzip/errors, optional hold of one sender until another request arrived, GOMAXPROCS. '
               'Non-trivial: >=2 requests answered out of order, a container, a gzip-packed result or a vector result; distinct by hash of the scenario.'),
-        must_hit=['server-clock-after-2038', 'feat:gzip:flushed-in-between', 'feat:gzip:stored', 'feat:big-result', 'feat:big-result:gzip', 'feat:result-longer-than-1MiB', 'feat:older-msg_id-arrives-after-newer', 'session:keyed-in-this-process', 'feat:answered-out-of-order', 'feat:container', 'feat:gzip', 'feat:rpc-error', 'feat:same-error-text-under-another-code', 'concurrent-callers', 'directed:answer-while-sender-in-send-path', 'feat:nested-container', 'feat:answers-to-requests-resent-after-salt-rotation', 'feat:repeated-result', 'feat:repeated-result-before-others-in-container', 'server-history:answers-after-reconnect', 'verdict:ok'] +
+        must_hit=['server-clock-after-2038', 'feat:gzip:flushed-in-between', 'feat:gzip:stored', 'feat:big-result', 'feat:big-result:gzip', 'feat:result-longer-than-1MiB', 'feat:older-msg_id-arrives-after-newer', 'session:keyed-in-this-process', 'feat:answered-out-of-order', 'feat:container', 'feat:gzip', 'feat:rpc-error', 'feat:vector-result-without-items:not-packed', 'feat:same-error-text-under-another-code', 'concurrent-callers', 'directed:answer-while-sender-in-send-path', 'feat:nested-container', 'feat:answers-to-requests-resent-after-salt-rotation', 'feat:repeated-result', 'feat:repeated-result-before-others-in-container', 'server-history:answers-after-reconnect', 'verdict:ok'] +
                  ['feat:%s:%s' % (k, f) for k in ('object', 'bool', 'vecint', 'veclong', 'vecobj') for f in ('plain', 'container', 'gzip')],
         assumptions=['requests are made through MakeRequest / MakeRequestWithHintToDecoder with the hint the generated method of that function passes, followed by the same type assertion',
                      'a stall verdict needs a quiescent deadlocked state seen in two goroutine dumps; anything else after the patience is inconclusive',
